@@ -46,6 +46,10 @@ func c15Ids(pattern string, n int, q *big.Int, rg interface{ Read([]byte) (int, 
 			ids[i] = big.NewInt(int64(i + 1))
 		case "large":
 			ids[i] = new(big.Int).Add(new(big.Int).Lsh(big1, 251), big.NewInt(int64(i*7+3)))
+		case "u64": // machine-word sized ids near the top of the uint64 range
+			ids[i] = new(big.Int).Sub(new(big.Int).Lsh(big1, 64), big.NewInt(int64(1+3*i)))
+		case "u32": // ids around 2^32: the square leaves 64 bits
+			ids[i] = new(big.Int).Add(new(big.Int).Lsh(big1, 32), big.NewInt(int64(5*i+1)))
 		case "geq":
 			ids[i] = new(big.Int).Add(q, big.NewInt(int64(i+1))) // >= q, distinct and non-zero mod q
 		case "nearq":
@@ -97,6 +101,16 @@ func c15Gen(tier string, seed int64) []core.Case {
 			id := fmt.Sprintf("deal/%s/t%d-n%d/seeded/seeded", curve, tn[0], tn[1])
 			cs = append(cs, core.Case{ID: id, Class: id, Kind: "deal", Cost: 6,
 				P: core.P{"curve": curve, "t": tn[0], "n": tn[1], "pat": "seeded", "sec": "seeded", "sample": true}})
+		}
+		// ids that fit a machine word, with thresholds for which id^t does not (64-bit ids with t >= 2, 32-bit ids with
+		// t >= 3, the ids 1..20 with t = 16: 20^16 > 2^64)
+		for _, c := range []struct {
+			pat  string
+			t, n int
+		}{{"u64", 2, 4}, {"u64", 3, 5}, {"u32", 3, 5}, {"u32", 2, 4}, {"small", 16, 20}, {"small", 13, 18}} {
+			id := fmt.Sprintf("deal/%s/t%d-n%d/%s/seeded", curve, c.t, c.n, c.pat)
+			cs = append(cs, core.Case{ID: id, Class: id, Kind: "deal", Cost: 3,
+				P: core.P{"curve": curve, "t": c.t, "n": c.n, "pat": c.pat, "sec": "seeded", "sample": c.n > 12}})
 		}
 		cs = append(cs, core.Case{ID: "refuse/" + curve, Class: "refuse/" + curve, Kind: "refuse", Cost: 1, P: core.P{"curve": curve}})
 		cs = append(cs, core.Case{ID: "zero-secret/" + curve, Class: "zero-secret/" + curve, Kind: "zero", Cost: 1, P: core.P{"curve": curve}})
@@ -306,10 +320,26 @@ func c15Run(c core.Case, env *core.Env) core.Result {
 	sample := c.P.Bool("sample")
 	sub := rng(env.Seed, c.ID+"/subsets")
 	total := 1 << uint(n)
-	for mask := 1; mask < total; mask++ {
-		if sample && sub.Intn(1<<uint(n-9)) != 0 {
-			continue
+	var masks []int
+	if sample {
+		// large n: the full set, the first and last t+1, seeded subsets of every size from t to n
+		full := total - 1
+		masks = append(masks, full, (1<<uint(t+1))-1, full&^((1<<uint(n-t-1))-1))
+		for size := t; size <= n; size++ {
+			for rep := 0; rep < 4; rep++ {
+				m := 0
+				for _, i := range sub.Perm(n)[:size] {
+					m |= 1 << uint(i)
+				}
+				masks = append(masks, m)
+			}
 		}
+	} else {
+		for mask := 1; mask < total; mask++ {
+			masks = append(masks, mask)
+		}
+	}
+	for _, mask := range masks {
 		var ss vss.Shares
 		for i := 0; i < n; i++ {
 			if mask&(1<<uint(i)) != 0 {
